@@ -227,6 +227,10 @@ func (s *ChunkStorage[T]) VerifyRemoteChunk(c Chunk[T]) (*warp.BitSetSignature, 
 
 	chunkCertInfo, ok := s.pendingChunkMap[c.id]
 	if ok {
+		// a pending chunk has no certificate until one is gossiped (and none after a restart)
+		if chunkCertInfo.Cert == nil {
+			return nil, nil
+		}
 		return chunkCertInfo.Cert.Signature, nil
 	}
 	if err := s.verifier.Verify(c); err != nil {
